@@ -140,8 +140,8 @@ def run(ctx, pid):
     if stats["dec"] != len(cases) or stats["rt"] != nbase or stats["fuzz"] != nfuzz or len(rows) != stats["events"]:
         raise vlib.Infra("driver recorded %d dec / %d rt / %d fuzz events for %d cases / %d well-formed / %d samples"
                          % (stats["dec"], stats["rt"], stats["fuzz"], len(cases), nbase, nfuzz))
-    if stats["acc_cli"] < nbase or stats["acc_srv"] < nbase:
-        raise vlib.Infra("the real decoders accepted almost nothing (%d frames): the binding is broken" % stats["acc_cli"])
+    if sum(stats["acc_" + e] for e in ("ser", "serm", "cli", "srv")) < nbase:
+        raise vlib.Infra("the real decoders accepted almost nothing: the binding is broken")
 
     # 3. TLC judges the recording against the strict design (Defects = {})
     mism, drift = _monitor(ctx, rows, "Trace_Frame.cfg", cat, 4 if quick else 6, 1500 if quick else 5400, "mon")
